@@ -8,6 +8,7 @@
   the same — those of the pure definitions the rest of the model is built on.
 -/
 import Grenad.Proofs.IOProofs
+import Grenad.Proofs.Wave3IO
 
 namespace Grenad.Props.C11
 
@@ -236,3 +237,138 @@ example : ∀ off, RFaultFree ((fun off => List.replicate off RResp.interrupted 
 example : (writeMany [[1, 2], [3]] {} (List.replicate 9 (.accept 1))).1.count = 3 := by decide
 
 end Grenad.Props.C11
+
+/-! ### The writer under an arbitrary sink schedule (`Grenad.Model.WriterIO`)
+
+`W.writes cd log m` is the list of `write_all` calls of a complete writer run (two per emitted
+block, five for the trailer); `W.runIO cd log m sch` pushes them through the sink answering from
+`sch`.  `log` is the block log of `W.run`, `m` the trailer the writer wrote (= the one parsed). -/
+
+namespace Grenad.Props.C11
+
+open Grenad Grenad.IOM Grenad.Wave3
+
+section
+variable {cd : Codec} {cfg : WCfg} {es : List Entry} {file : Bytes} {log : List Emitted}
+  {m : Meta.Meta}
+
+/-- **C11, write side.**  The `write_all` calls of a run concatenate to the file returned by the
+    pure writer, and under every fault-free schedule — whatever the split into partial writes and
+    interruptions — the writer reports no error, the sink holds exactly `file` and
+    `CountWrite::count` is `file.length`: the byte stream handed to the sink is a function of the
+    configuration and the entries only. -/
+theorem C11_writer_bytes (H : WriterHyps cd cfg es) (hrun : W.run cd cfg es = .ok (file, log))
+    (hfile : file.length < 2 ^ 64) (hcount : es.length < 2 ^ 64) (hid : cd.id ≤ 5)
+    (hm : Meta.parse file = .ok m) :
+    (W.writes cd log m).flatten = file ∧
+    ∀ sch, WFaultFree sch →
+      (W.runIO cd log m sch).2.2 = none ∧ (W.runIO cd log m sch).1.data = file ∧
+      (W.runIO cd log m sch).1.count = file.length := by
+  have hfl := writes_flatten_run H hrun hfile hcount hid hm
+  refine ⟨hfl, fun sch hff => ?_⟩
+  obtain ⟨h1, h2, h3⟩ := runIO_ff cd log m hff
+  exact ⟨h1, by rw [h2, hfl], by rw [h3, hfl]⟩
+
+/-- The same without the size side conditions, for the trailer record given explicitly
+    (`root` is the offset of the last block written). -/
+theorem C11_writer_bytes_root (H : WriterHyps cd cfg es)
+    (hrun : W.run cd cfg es = .ok (file, log)) :
+    ∃ root, (W.writes cd log ⟨2, root, cd.id, es.length, cfg.levels⟩).flatten = file ∧
+      ∀ sch, WFaultFree sch →
+        let r := W.runIO cd log ⟨2, root, cd.id, es.length, cfg.levels⟩ sch
+        r.2.2 = none ∧ r.1.data = file ∧ r.1.count = file.length := by
+  obtain ⟨root, -, hf, -⟩ := run_layout H hrun
+  have hfl : (W.writes cd log ⟨2, root, cd.id, es.length, cfg.levels⟩).flatten = file := by
+    rw [writes_flatten _ _ _ (by simp), ← hf]
+  refine ⟨root, hfl, fun sch hff => ?_⟩
+  obtain ⟨h1, h2, h3⟩ := runIO_ff cd log ⟨2, root, cd.id, es.length, cfg.levels⟩ hff
+  exact ⟨h1, by rw [h2, hfl], by rw [h3, hfl]⟩
+
+/-- Two fault-free schedules cannot be told apart from the sink. -/
+theorem C11_writer_indep₂ (sch₁ sch₂ : List WResp) (h₁ : WFaultFree sch₁) (h₂ : WFaultFree sch₂) :
+    (W.runIO cd log m sch₁).1 = (W.runIO cd log m sch₂).1 ∧
+    (W.runIO cd log m sch₁).2.2 = (W.runIO cd log m sch₂).2.2 :=
+  writeMany_indep₂ _ _ _ _ h₁ h₂
+
+/-- **C11, recorded offsets.**  Under any fault-free schedule, at the moment block number `j` of
+    the log starts being written — after the first `2·j` `write_all` calls; the next two calls are
+    its big-endian length prefix and its compressed body — `CountWrite::count` equals
+    `log[j].offset`, the value the writer stores in the parent index entry; the sink then holds
+    exactly the first `offset` bytes of the file, and the complete run is that prefix run
+    continued with the remaining calls on the remaining schedule. -/
+theorem C11_writer_offsets (H : WriterHyps cd cfg es) (hrun : W.run cd cfg es = .ok (file, log))
+    (m : Meta.Meta) (j : Nat) (e : Emitted) (hj : log[j]? = some e) (sch : List WResp)
+    (hff : WFaultFree sch) :
+    let mid := writeMany ((W.writes cd log m).take (2 * j)) {} sch
+    mid.2.2 = none ∧ mid.1.count = e.offset ∧ mid.1.data = file.take e.offset ∧
+    WFaultFree mid.2.1 ∧
+    (W.writes cd log m).drop (2 * j) =
+      be64 (cd.compress e.raw).length :: cd.compress e.raw :: W.writes cd (log.drop (j + 1)) m ∧
+    W.runIO cd log m sch = writeMany ((W.writes cd log m).drop (2 * j)) mid.1 mid.2.1 := by
+  obtain ⟨root, -, hf, hps⟩ := run_layout H hrun
+  obtain ⟨h1, h2, h3, h4, h5, h6⟩ := runIO_offsets hps m hj hff
+  refine ⟨h1, h2, ?_, h4, h5, h6⟩
+  rw [h3]
+  obtain ⟨hsplit, -⟩ := split_at_getElem? hj
+  have hoff := hps _ _ _ hsplit
+  have hfm : log.flatMap (fun e => W.blockBytes cd e.raw) =
+      (log.take j).flatMap (fun e => W.blockBytes cd e.raw) ++
+        (log.drop j).flatMap (fun e => W.blockBytes cd e.raw) := by
+    rw [← List.flatMap_append, List.take_append_drop]
+  rw [hf, hoff, hfm, List.append_assoc, List.take_left]
+
+/-- The counter value read at that moment is the prefix sum of the lengths of the calls made so
+    far (`C11_writer_count_take`), whatever the schedule did to them. -/
+theorem C11_writer_offsets_sum (H : WriterHyps cd cfg es)
+    (hrun : W.run cd cfg es = .ok (file, log)) (m : Meta.Meta) (j : Nat) (e : Emitted)
+    (hj : log[j]? = some e) :
+    e.offset = (((W.writes cd log m).take (2 * j)).map List.length).sum := by
+  have h := C11_writer_offsets H hrun m j e hj [] WFaultFree.nil
+  have h' := (C11_writer_count_take (W.writes cd log m) (2 * j) [] WFaultFree.nil).1
+  rw [← h']; exact h.2.1.symm
+
+end
+
+/-! #### A concrete instance: three entries, one index level below the root -/
+
+-- the instance `wxCfg`, `wxEs`, `wxFile`, `wxLog`, `wxMeta` lives in `Grenad.Proofs.Wave3IO`
+
+/-- hypotheses of `C11_writer_bytes` / `C11_writer_offsets` hold for the instance; conclusion for
+    a schedule of interruptions and tiny acceptances -/
+example : (W.runIO Codec.none wxLog wxMeta
+      ([.interrupted, .accept 1, .accept 0, .interrupted] ++ List.replicate 50 (.accept 3))).1.data
+    = wxFile := by
+  refine ((C11_writer_bytes wxHyps wxRun wxFile_lt (by decide) (by decide)
+    wxParse).2 _ ?_).2.1
+  intro r hr t
+  simp only [List.mem_append, List.mem_replicate, List.mem_cons, List.not_mem_nil, or_false] at hr
+  rcases hr with (rfl | rfl | rfl | rfl) | ⟨_, rfl⟩ <;> simp
+
+/-- when block 3 (offset 74, the first index block) starts being written the counter reads 74 -/
+example (sch : List WResp) (hff : WFaultFree sch) :
+    (writeMany ((W.writes Codec.none wxLog wxMeta).take (2 * 3)) {} sch).1.count = 74 := by
+  have h : wxLog[3]?.map (·.offset) = some 74 := by
+    have := wxShape.2.1
+    rw [← List.getElem?_map, this]; rfl
+  cases he : wxLog[3]? with
+  | none => rw [he] at h; cases h
+  | some e =>
+    rw [he] at h
+    simp only [Option.map_some, Option.some.injEq] at h
+    rw [← h]
+    exact (C11_writer_offsets wxHyps wxRun wxMeta 3 e he sch hff).2.1
+
+/-- the same by evaluation, with one-byte writes -/
+example : (writeMany ((W.writes Codec.none wxLog wxMeta).take 6) {}
+    (List.replicate 200 (.accept 1))).1.count = 74 := by
+  set_option maxRecDepth 100000 in decide
+
+end Grenad.Props.C11
+
+section Audit
+open Grenad.Props.C11
+#print axioms C11_writer_bytes
+#print axioms C11_writer_bytes_root
+#print axioms C11_writer_offsets
+#print axioms C11_writer_offsets_sum
+end Audit
